@@ -110,12 +110,20 @@ where
         match message {
             SwarmControlMessage::ConnectionClosed {
                 ip_version,
+                consumer_id,
+                connection_id,
                 announced_info_hashes,
             } => {
                 let mut torrents = torrents.borrow_mut();
 
                 for (info_hash, peer_id) in announced_info_hashes {
-                    torrents.handle_connection_closed(info_hash, peer_id, ip_version);
+                    torrents.handle_connection_closed(
+                        info_hash,
+                        peer_id,
+                        ip_version,
+                        consumer_id,
+                        connection_id,
+                    );
                 }
             }
         }
